@@ -143,6 +143,35 @@ func (cc cgoCase) build() *jen.File {
 	return f
 }
 
+// otherPaths lists the non-"C" import paths the combination must end up importing.
+func (cc cgoCase) otherPaths() []string {
+	switch cc.Others {
+	case 1:
+		return []string{"fmt"}
+	case 2:
+		return []string{"fmt", "os", "x.y/z"}
+	case 3:
+		return []string{"x.y/z"}
+	case 4:
+		return []string{"x.y/anon"}
+	case 5:
+		return []string{"x.y/c", "x.y/C"}
+	case 6:
+		return []string{"x.y/z", "x.y/w"}
+	case 7:
+		out := []string{"a.a/first", "z.z/last"}
+		for i := 0; i < 12; i++ {
+			out = append(out, fmt.Sprintf("m.n/p%d", i))
+		}
+		return out
+	case 8:
+		return []string{"9fans.net/go/acme", "B.c/d"}
+	case 9:
+		return []string{"./rel", "4d63.com/tz", "A/b"}
+	}
+	return nil
+}
+
 func expectComment(c string) string {
 	if strings.HasPrefix(c, "//") || strings.HasPrefix(c, "/*") {
 		return c
@@ -259,7 +288,20 @@ func c19Case(r *mon.Run, cc cgoCase, c mon.Case) {
 			continue
 		}
 		pres := cc.preambles()
-		for _, p := range judgeCgo(src, pres, cc.QualC || cc.AnonC || len(pres) > 0, cc.QualC) {
+		probs := judgeCgo(src, pres, cc.QualC || cc.AnonC || len(pres) > 0, cc.QualC)
+		// the other imports are all there, once each (a "C" special case must not eat its neighbours)
+		if af, err := parser.ParseFile(token.NewFileSet(), "o.go", src, parser.ImportsOnly); err == nil {
+			got := map[string]int{}
+			for _, is := range af.Imports {
+				got[strings.Trim(is.Path.Value, `"`)]++
+			}
+			for _, p := range cc.otherPaths() {
+				if got[p] != 1 {
+					probs = append(probs, fmt.Sprintf("import %q appears %d times next to the cgo import, want once", p, got[p]))
+				}
+			}
+		}
+		for _, p := range probs {
 			class := "cgo-import"
 			if strings.Contains(p, "preamble") || strings.Contains(p, "comment group") {
 				class = "cgo-preamble"
